@@ -96,19 +96,25 @@ Theorem C03_holds_on : forall s, c03_holds_on s = true.
 Proof. exact c03_holds_on_true. Qed.
 Print Assumptions C03_holds_on.
 
+(* ---- golang.org/x/tools/txtar.Format at statement level (buffer writes, fmt.Fprintf with the
+   regenerated format string), and the x/tools marker constants ---- *)
+
+Theorem C03_format_idx_eq : forall a, format_idx a = Ok (format a).
+Proof. exact format_idx_eq. Qed.
+Print Assumptions C03_format_idx_eq.
+
+Theorem C03_xtools_constants :
+  xtools_format_string = marker ++ [x25; x73] ++ marker_end ++ [NL] /\
+  (xtools_marker = marker /\ xtools_marker_end = marker_end /\ xtools_newline_marker = newline_marker).
+Proof. exact (conj xtools_format_string_eq xtools_markers_eq). Qed.
+Print Assumptions C03_xtools_constants.
+
 (* ---- strings.TrimSpace (used by isMarker) at rune level, Lib/Utf8.v ---- *)
 
 (* the byte-table trim_space of the model strips exactly the maximal prefix and suffix
    of white-space runes: runes decoded as utf8.DecodeRune / DecodeLastRune do, white
    space as unicode.IsSpace defines it in the regenerated standard-library tables *)
-Theorem C03_trim_space_runes : forall d, trim_space d = trim_space_runes d.
-Proof. exact trim_space_eq. Qed.
+Theorem C03_trim_space_runes : forall d,
+  trim_space d = trim_space_runes d /\ trim_left d = trim_left_runes d /\ trim_right d = trim_right_runes d.
+Proof. exact trim_all_eq. Qed.
 Print Assumptions C03_trim_space_runes.
-
-Theorem C03_trim_left_runes : forall d, trim_left d = trim_left_runes d.
-Proof. exact trim_left_eq. Qed.
-Print Assumptions C03_trim_left_runes.
-
-Theorem C03_trim_right_runes : forall d, trim_right d = trim_right_runes d.
-Proof. exact trim_right_eq. Qed.
-Print Assumptions C03_trim_right_runes.
